@@ -4,7 +4,7 @@ export GOFLAGS=-mod=mod GOPROXY=off GOSUMDB=off GOTOOLCHAIN=local GOSYM_VERIF_DI
 mkdir -p bin && (cd gosym && go build -o ../bin/gosym ./cmd/gosym) || exit 2
 for id in "$@"; do
   s=$(date +%s)
-  ./bin/gosym check $id --tier thorough > thorough_$id.log 2>&1; rc=$?
+  timeout ${THOROUGH_TIMEOUT:-5400} ./bin/gosym check $id --tier thorough -v > thorough_$id.log 2> thorough_$id.progress; rc=$?
   echo "$id exit=$rc $(( $(date +%s)-s ))s viol=$(grep -c '^VIOLATION' thorough_$id.log) incomplete=$(grep -c '^INCOMPLETE' thorough_$id.log) $(grep '^property=' thorough_$id.log | cut -c1-260)" | tee -a thorough_results.txt
   grep -E '^VIOLATION|^  instance|^INCONCLUSIVE|^ENCODER' thorough_$id.log | head -20 >> thorough_results.txt
 done
